@@ -252,6 +252,12 @@ def run_extras(case):
     s2 = script.copy()
     s2.rng_seed = None
     out1 = st.simulate_script(s2, engines.get(kind_))
+    if out1.nsamples() > 0 and case["idx"] % 2 == 0:
+        # the trajectory's own system is the caller's to go on with (continue from the last state...): the stored script is
+        # a record of what was run and must not follow such edits
+        out1.system.state = out1.get_state(None, out1.nsamples() - 1)
+        out1.system.set_state(0, 0, out1.system.get_state(0, 0) * 2 + st.UnitValue(1, "molecule"))
+        counts["stored_script_reruns_after_editing_the_trajectory_system"] = 1
     out2 = st.simulate_script(out1.script, engines.get(kind_))
     counts["stored_script_reruns"] = 1
     if digest(out1)[0] != digest(out2)[0]:
@@ -328,6 +334,55 @@ def run_fpenv(case):
                     "ran_in_between": [list(x) for x in disturbers], "first_tail": first[3], "again_tail": again[3]})
     return {"bad": bad, "counts": counts, "key": chash(["fpenv", sd, idx]), "nontrivial": True,
             "sample": {"seed": sd, "idx": idx, "probe_space": probe_space}}
+
+
+def run_big_batches(case):
+    """iterate_n with counts beyond 65536 (100000, 131072, 65536, 200001 ...): a run of 250 000-330 000 iterations driven in a few big
+    batches, with an explicit sample() after each batch, against the same run driven in batches of at most 25 000 with samples at the
+    same iteration counts - same records, bit for bit"""
+    use_repo()
+    engines.install()
+    import strengths as st
+    sd, idx = case["seed"], case["idx"]
+    r = gen.rng_for(sd, "C08big", idx)
+    kind_ = engines.KINDS[idx % 3]
+    net = st.RDNetwork([st.Species("A", D=1.0, density=0), st.Species("B", D=0.5, density=0)], [st.Reaction("A -> B", kf=0.7, kr=0.4)])
+    if r.random() < 0.5:
+        space = st.RDGridSpace(w=2, h=1, d=1)
+    else:
+        space = st.RDGraphSpace([st.RDGraphSpaceNode(volume=1.0), st.RDGraphSpaceNode(volume=2.0)], [st.RDGraphSpaceEdge(0, 1, surface=1.0, distance=1.0)])
+    system = st.RDSystem(net, space, state=[30, 10, 5, 20])
+    marks = []
+    tot = 0
+    for k in r.sample([65536, 65537, 100000, 131072, 70001, 200001, 2 ** 16 * 3], r.randint(2, 3)):
+        tot += k
+        marks.append(tot)
+
+    def script():
+        return st.RDScript(system, t_sample=[0], t_max=1e9, time_step=1e-5, sampling_policy="no_sampling", rng_seed=1234 + idx,
+                           init_state_processing="none")
+
+    def drive(batches):
+        e = engines.get(kind_)
+        e.setup(script())
+        done = 0
+        for target in marks:
+            while done < target:
+                k = min(batches, target - done)
+                e.iterate_n(k)
+                done += k
+            e.sample()
+        out = e.get_output()
+        e.finalize()
+        return digest(out)
+    big = drive(10 ** 9)
+    small = drive(r.choice([25000, 1000, 60000]))
+    bad = []
+    if big[0] != small[0]:
+        bad.append({"what": "iterate_n in batches beyond 65536 iterations gives other records than the same run in small batches", "engine": kind_,
+                    "samples_after_iterations": marks, "big": list(big[1:]), "small": list(small[1:])})
+    return {"bad": bad, "counts": {"big_batch_pairs": 1}, "key": chash(["bigbatch", sd, idx]), "nontrivial": True,
+            "sample": {"seed": sd, "idx": idx, "engine": kind_, "samples_after_iterations": marks}}
 
 
 def reference(case):
@@ -448,7 +503,8 @@ def main():
     run.note("distinct_partitions_of_the_iteration_sequence", len(partitions))
     from vf.sandbox import run_extra as _run_extra
     _run_extra(run, "vf.checks.c08:run_fpenv", [{"seed": sd, "idx": i} for i in range(400 if thorough else 48)], cpu_budget=120, fresh=True)
-    run.require("fpenv_probe_pairs")
+    _run_extra(run, "vf.checks.c08:run_big_batches", [{"seed": sd, "idx": i} for i in range(48 if thorough else 9)], cpu_budget=300)
+    run.require("fpenv_probe_pairs", "big_batch_pairs")
     return run.finish()
 
 
